@@ -51,8 +51,12 @@ class SigmaGlobalFilter(SigmaDetections):
                 # Empty list is treated as "any"
                 if not detections["rules"]:
                     rules = "any"
-                else:
+                elif all(isinstance(reference, str) for reference in detections["rules"]):
                     rules = [SigmaRuleReference(detection) for detection in detections["rules"]]
+                else:
+                    raise sigma_exceptions.SigmaFilterRuleReferenceError(
+                        "Sigma filter rule references must be strings", source=source
+                    )
             else:
                 raise sigma_exceptions.SigmaFilterRuleReferenceError(
                     "Sigma filter rules field must be 'any', a rule ID/name, or a list of rule IDs/names",
@@ -240,7 +244,7 @@ class SigmaFilter(SigmaRuleBase):
 
         # Rename every filter detection identifier with the shared prefix.
         for original_cond_name, condition in self.filter.detections.items():
-            rule.detection.detections[prefix + "_" + original_cond_name] = copy.deepcopy(condition)
+            rule.detection.detections[f"{prefix}_{original_cond_name}"] = copy.deepcopy(condition)
 
         # Rewrite the filter condition string so that every identifier/pattern token is
         # prefixed.  This handles:
